@@ -564,6 +564,89 @@ def timeline(binary, out, script_file):
     json.dump({"phases": phases, "samples": samples, "daemon_alive_at_end": alive, "daemon_exit_code": p.returncode, "chronyd_requests": chronyd.requests, "final_segment": final.hex() if final else None, "file_size": os.path.getsize(SHM) if os.path.exists(SHM) else -1}, open(out, "w"))
 
 
+def c04restart(binary, out, ages):
+    """The release binary killed and restarted over the segment it published, a client attached all along
+    (this process: one descriptor and one mapping opened during the first incarnation and never re-opened).
+    `ages`: what the file's timestamps say at the restart (seconds relative to now, "keep" = untouched)."""
+    import mmap
+    res = []
+    for age in ages:
+        try:
+            os.unlink(SHM)
+        except OSError:
+            pass
+        chronyd = FakeChronyd("answer")
+        chronyd.start()
+        obs = {"age": age, "sizes_seen": {}, "problems": []}
+        p1 = subprocess.Popen([binary], stdout=subprocess.DEVNULL, stderr=subprocess.PIPE)
+        t0 = time.monotonic()
+        seg = None
+        while time.monotonic() - t0 < 8.0 and (seg is None or struct.unpack_from("=i", seg, 64)[0] != 1):
+            seg = read_segment()
+            time.sleep(0.01)
+        if seg is None:
+            kill(p1)
+            chronyd.stop = True
+            chronyd.set_mode("absent")
+            obs["inconclusive"] = "the first incarnation did not publish: %s" % p1.stderr.read().decode(errors="replace")[-200:]
+            res.append(obs)
+            continue
+        fd = os.open(SHM, os.O_RDONLY)
+        m = mmap.mmap(fd, 72, prot=mmap.PROT_READ)
+        ino0 = os.fstat(fd).st_ino
+        time.sleep(1.2)   # a few more publications
+        kill(p1)
+        gen_at_death, = struct.unpack_from("=H", m, 14)
+        rec_at_death = bytes(m[16:72])
+        obs["generation_at_death"] = gen_at_death
+        if age != "keep":
+            t = time.time() + float(age)
+            os.utime(SHM, (t, t))
+        p2 = subprocess.Popen([binary], stdout=subprocess.DEVNULL, stderr=subprocess.PIPE)
+        t1 = time.monotonic()
+        gens = []
+        while time.monotonic() - t1 < 3.0:
+            try:
+                st = os.stat(SHM)
+                obs["sizes_seen"][str(st.st_size)] = obs["sizes_seen"].get(str(st.st_size), 0) + 1
+                if st.st_ino != ino0 and "inode" not in obs:
+                    obs["inode"] = "changed %.3f s after the restart" % (time.monotonic() - t1)
+            except OSError:
+                obs["sizes_seen"]["missing"] = obs["sizes_seen"].get("missing", 0) + 1
+            g, = struct.unpack_from("=H", m, 14)
+            if not gens or gens[-1] != g:
+                gens.append(g)
+            time.sleep(0.005)
+        alive2 = p2.poll() is None
+        obs["second_incarnation_alive"] = alive2
+        obs["generations_seen_through_the_old_mapping"] = gens[:12]
+        try:
+            cur = open(SHM, "rb").read()
+        except OSError:
+            cur = b""
+        kill(p2)
+        obs["stderr_tail"] = p2.stderr.read().decode(errors="replace")[-200:] if not alive2 else ""
+        if not alive2:
+            obs["inconclusive"] = "the restarted daemon exited: %s" % obs["stderr_tail"]
+        else:
+            # (c) taken over in place: same file, never emptied, the generation goes on from where it was
+            if "inode" in obs:
+                obs["problems"].append("the segment at the path is another file than before the restart (inode %s): re-created, not taken over" % obs["inode"])
+            if any(k not in ("72",) for k in obs["sizes_seen"]):
+                obs["problems"].append("the file was seen with sizes %s during the restart (emptied or re-created)" % obs["sizes_seen"])
+            # (b) the attached client sees the restarted daemon's publications through its old mapping
+            if len(gens) < 2:
+                obs["problems"].append("through the mapping opened before the restart the generation stayed %s for 3 s although the restarted daemon was running (file at the path now at generation %s)" % (gens, struct.unpack_from("=H", cur, 14)[0] if len(cur) >= 16 else "?"))
+            if bytes(m[16:72]) == rec_at_death and len(cur) >= 72 and cur[16:72] != rec_at_death:
+                obs["problems"].append("the attached mapping still shows the dead daemon's record while the file at the path holds a newer one")
+        m.close()
+        os.close(fd)
+        chronyd.stop = True
+        chronyd.set_mode("absent")
+        res.append(obs)
+    json.dump(res, open(out, "w"))
+
+
 if __name__ == "__main__":
     if not os.path.exists("/run/chrony/.verif-private"):
         print("refusing to run outside the private namespace")
@@ -571,6 +654,8 @@ if __name__ == "__main__":
     mode = sys.argv[1]
     if mode == "c19":
         c19(sys.argv[2], sys.argv[3], sys.argv[4:])
+    elif mode == "c04restart":
+        c04restart(sys.argv[2], sys.argv[3], sys.argv[4:])
     elif mode == "phcnames":
         phcnames(sys.argv[2], sys.argv[3], sys.argv[4:])
     elif mode == "c02stop":
